@@ -481,6 +481,21 @@ def fresh_program(ops, k):
     return out + [ops[k]]
 
 
+def exec_fresh_build(arg):
+    """The design statements up to and including op k, in a fresh process, no calls."""
+    scn, k = arg
+    T = template_init()
+    seams.set_sched(seams.Sched("insertion", 0))
+    it = interp.Interp(T["h"])
+    for op in scn["ops"][: k + 1]:
+        if op[0] in refmodel.DESIGN_OPS:
+            try:
+                it.run(op)
+            except Exception as e:  # noqa
+                return {"ok": False, "build_exc": interp.norm_exc(e)}
+    return {"ok": True}
+
+
 def exec_fresh(arg):
     scn, k = arg
     T = template_init()
@@ -581,7 +596,22 @@ def run(scn):
                 if not o["raised"]:
                     res["findings"].append({"prop": "C07", "clause": "freeze", "detail": [f"addition to elaborated module {mid} was accepted"]})
             continue
-        if kind == "end" and o is not None and "build_exc" in o:
+        if kind in refmodel.DESIGN_OPS and o is not None and "build_exc" in o:
+            # Writing the design failed.  If the module being written is a new one (no call has
+            # touched it) and a fresh process writes the same statements without complaint, the
+            # history is to blame: "an already elaborated module can still be instantiated by new parents".
+            mid = op[1] if len(op) > 1 else None
+            touched_before = any(ops[j][0] in interp.EXPORT_OPS and outcomes[j] is not None and mid in hierarchy(design_at(ops, j), ops[j][1]) for j in range(k))
+            if mode == "c07" and mid in design_at(ops, k + 1).mods and not touched_before:
+                fb = procs.in_child(exec_fresh_build, (scn, k), timeout=60)
+                if fb.get("ok"):
+                    res["findings"].append({"prop": "C07", "clause": "new-parent-cannot-be-written", "detail": [f"op #{k} {op[:4]} raised {o['build_exc']} while writing a new module; a fresh process executes the same statements"], "at": k})
+                    res["nontrivial"] = True
+                    res["sig"] = hash64(str(scn["ops"]))
+                    return res
+            if kind != "end":
+                probe("design_statement_refused_mid_session")  # (the session ends here; earlier calls are judged)
+                continue
             res["discard"] = f"build failed: {o['build_exc']}"
             probe("valid_design_rejected_at_build")
             return res
